@@ -87,6 +87,7 @@ type File struct {
 	Decls    []*Node
 	ExtTest  bool              // external test package (package name + "_test")
 	Rename   map[string]string // import path -> explicit import name
+	PkgTrail *Ignore           // an @ignore comment trailing the package clause: its scope is that line, i.e. nothing
 	BlankImp []string          // blank imports
 }
 
